@@ -257,3 +257,68 @@ def run(repo: Repo, rep: Report, tier: str) -> None:
                 dom = any(cfgf.dominates(k, tn[0]) for k in clears)
                 rep.extra.setdefault("terminal_sites", []).append(f"{fqn}:{ev}:{'cleared' if dom else 'not-cleared-here'}")
     rep.floor("released/aborted notification sites", n_term, 8)
+
+    check_delivery_snapshot(repo, rep)
+
+
+IN_PLACE_REMOVALS = ("remove", "pop", "clear", "insert", "sort", "reverse")
+
+
+def check_delivery_snapshot(repo: Repo, rep: Report) -> None:
+    """trigger() delivers a notification by looping over the list of bound handlers. Unless that loop
+    runs over a copy, the list object must never shrink or be reordered in place: a handler that
+    unbinds (itself or an earlier one) while the loop runs would shift the remaining entries and the
+    next handler is skipped - every other observer of the event loses that notification (a missing
+    transition, an open without its close). Either the loop iterates a snapshot, or unbinding rebinds
+    the dict entry to a new list (copy-on-write), as it does today."""
+    rep.rule("delivery-snapshot", "the handler list a notification is being delivered over cannot shrink under the loop: trigger() iterates a copy, or handler removal is copy-on-write")
+    ev = repo.mod("events")
+    trig = repo.func("events", "trigger")
+    loops = [f for f in walk_no_nested(trig) if isinstance(f, ast.For) and isinstance(f.target, ast.Tuple) and "handlers" in norm(f.iter)]
+    if len(loops) != 1:
+        rep.defer("events.trigger: the delivery loop over the bound handlers was not found")
+        return
+    it = strip_cast(loops[0].iter)
+    snapshot = (isinstance(it, ast.Call) and norm(it.func) in ("list", "tuple", "copy", "copy.copy", "sorted")) or (isinstance(it, ast.Subscript) and isinstance(it.slice, ast.Slice) and it.slice.lower is None and it.slice.upper is None) or (isinstance(it, ast.Call) and isinstance(it.func, ast.Attribute) and it.func.attr == "copy")
+    if not snapshot and isinstance(it, ast.Name):
+        # the name may itself be bound to a copy
+        b_ = [s_ for s_ in walk_no_nested(trig) if isinstance(s_, ast.Assign) and norm(s_.targets[0]) == it.id]
+        snapshot = bool(b_) and all((isinstance(strip_cast(s_.value), ast.Call) and norm(strip_cast(s_.value).func) in ("list", "tuple")) for s_ in b_)
+    n = 0
+    bad = []
+    for fname in ("_add_handler", "_remove_handler"):
+        fn = ev.funcs.get(fname)
+        if fn is None:
+            rep.defer(f"events.{fname} vanished")
+            continue
+        # names that hold the list object stored in the handler dict
+        lists = {"handlers_attr[event]"}
+        for s_ in walk_no_nested(fn):
+            if isinstance(s_, ast.Assign) and isinstance(s_.targets[0], ast.Name) and norm(strip_cast(s_.value)) == "handlers_attr[event]":
+                lists.add(s_.targets[0].id)
+        for x in walk_no_nested(fn):
+            recv = None
+            what = ""
+            if isinstance(x, ast.Call) and isinstance(x.func, ast.Attribute) and x.func.attr in IN_PLACE_REMOVALS and norm(strip_cast(x.func.value)) in lists:
+                recv, what = norm(x.func.value), f".{x.func.attr}()"
+            elif isinstance(x, ast.Delete):
+                for t in x.targets:
+                    if isinstance(t, ast.Subscript) and norm(strip_cast(t.value)) in lists:
+                        recv, what = norm(t.value), "del [..]"
+            elif isinstance(x, (ast.Assign, ast.AugAssign)):
+                tg = x.targets if isinstance(x, ast.Assign) else [x.target]
+                for t in tg:
+                    if isinstance(t, ast.Subscript) and norm(strip_cast(t.value)) in lists and isinstance(t.slice, ast.Slice):
+                        recv, what = norm(t.value), "slice assignment"
+            if recv is not None:
+                n += 1
+                bad.append((fn, x, f"{recv} {what}"))
+        n += 1
+    if snapshot:
+        rep.ok("delivery-snapshot", "events.trigger :: the delivery loop iterates a copy of the handler list")
+    elif not bad:
+        rep.ok("delivery-snapshot", "events._add_handler / _remove_handler :: the stored list only grows in place; removal rebinds the entry to a new list", "trigger() iterates the stored list itself")
+    else:
+        for fn, x, what in bad:
+            rep.fail("delivery-snapshot", f"events.{fn.name}", enclosing(x, (ast.stmt,)) or x, f"{what} shrinks / reorders the stored handler list in place while events.trigger() may be iterating that very object (get_handlers returns it uncopied): a handler that unbinds itself or an earlier handler during delivery makes the loop skip the next handler, which never sees this notification", mod=ev, node=x)
+    rep.floor("handler-list mutators inspected", n, 2)
